@@ -233,6 +233,47 @@ fn run_case(c: &Case) -> Result<Res, String> {
     Ok(Res { viol, chunks })
 }
 
+/// A request of any opcode whose body is well within the limit, delivered whole or header first:
+/// whatever the server makes of it (answer, error, close), it must not refuse it for its size.
+fn run_within_any(limit: u32, opcode: u8, split: u8) -> Result<Option<(String, String)>, String> {
+    let c = Case { limit, body_len: 0, opcode, position: 0, b: 0, pregrown: false, shape: 0 };
+    let mut r = oversized_req(&c);
+    r.value = b"tiny".to_vec();
+    let bytes = r.bytes();
+    let w = net::NetWorld::new(NetCfg { item_limit: limit, ..Default::default() })?;
+    let mut cl = w.connect()?;
+    match split {
+        0 => {
+            let _ = cl.step(&w, &bytes);
+        }
+        1 => {
+            let _ = cl.step(&w, &bytes[..24]);
+            let _ = cl.step(&w, &bytes[24..]);
+        }
+        _ => {
+            let _ = cl.step(&w, &bytes[..bytes.len() - 1]);
+            let _ = cl.step(&w, &bytes[bytes.len() - 1..]);
+        }
+    }
+    w.settle();
+    cl.pump();
+    let (resps, _) = wire::split_responses(&cl.got);
+    if let Some(bad) = resps.iter().find(|x| x.status == st::TOO_LARGE) {
+        return Ok(Some((
+            format!("within-limit-refused|any-opcode|{}", ["whole", "header-first", "last-byte-late"][split as usize]),
+            format!(
+                "limit={} op={} body of {} bytes delivered {}: answered {} - a request within the limit must never be refused for size",
+                limit,
+                wire::op_name(opcode),
+                bytes.len() - 24,
+                ["whole", "header first, body later", "all but the last byte first"][split as usize],
+                bad.short()
+            ),
+        )));
+    }
+    Ok(None)
+}
+
 pub fn check(tier: Tier, threads: usize) -> CheckOutcome {
     let t0 = Instant::now();
     let limits: Vec<u32> = if tier == Tier::Quick { vec![1024, 4096, 65536] } else { vec![1024, 4096, 65536, 1 << 20, 4 << 20] };
@@ -294,6 +335,31 @@ pub fn check(tier: Tier, threads: usize) -> CheckOutcome {
     let mut mach = None;
     let mut chunks = 0u64;
     let mut failing = 0u64;
+    // every opcode 0..=0x24 within the limit, three delivery patterns
+    let mut within: Vec<(u32, u8, u8)> = vec![];
+    for &limit in &[1024u32, 65536] {
+        for opc in 0u8..=0x24 {
+            for split in 0..3u8 {
+                within.push((limit, opc, split));
+            }
+        }
+    }
+    let wres = par_map(&within, threads, |_, (l, o, sp)| run_within_any(*l, *o, *sp));
+    for ((l, o, sp), r) in within.iter().zip(wres.iter()) {
+        chunks += 2;
+        match r {
+            Err(e) => mach = Some(format!("within-limit op {:#x}: {}", o, e)),
+            Ok(Some((sig, what))) => {
+                failing += 1;
+                found.entry(sig.clone()).or_insert(Violation {
+                    signature: sig.clone(),
+                    what: what.clone(),
+                    replay: json!({"engine": "c13", "case": what, "within_any": true, "limit": l, "opcode": o, "split": sp}),
+                });
+            }
+            Ok(None) => {}
+        }
+    }
     for (c, r) in cases.iter().zip(results.iter()) {
         match r {
             Err(e) => mach = Some(format!("{}: {}", c.name(), e)),
@@ -316,11 +382,12 @@ pub fn check(tier: Tier, threads: usize) -> CheckOutcome {
         tier: if tier == Tier::Quick { "quick".into() } else { "thorough".into() },
         level: "model_checking",
         coverage: json!({
-            "states": cases.len(),
+            "states": cases.len() + within.len(),
             "transitions": chunks,
-            "traces_validated_against_impl": cases.len(),
-            "evaluations": cases.len(),
-            "distinct_nontrivial": cases.len(),
+            "traces_validated_against_impl": cases.len() + within.len(),
+            "evaluations": cases.len() + within.len(),
+            "distinct_nontrivial": cases.len() + within.len(),
+            "within_limit_any_opcode_scenarios": within.len(),
             "scenarios_failing": failing,
             "limits": limits,
             "samples": samples,
@@ -338,6 +405,15 @@ pub fn check(tier: Tier, threads: usize) -> CheckOutcome {
 }
 
 pub fn replay(v: &serde_json::Value) -> Result<Option<String>, String> {
+    if v["within_any"].as_bool() == Some(true) {
+        let (l, o, sp) = (v["limit"].as_u64().unwrap_or(1024) as u32, v["opcode"].as_u64().unwrap_or(0) as u8, v["split"].as_u64().unwrap_or(0) as u8);
+        let a = run_within_any(l, o, sp)?;
+        let b = run_within_any(l, o, sp)?;
+        if a != b {
+            return Err("two replays of the same scenario differ".into());
+        }
+        return Ok(a.map(|(s, w)| format!("{}: {}", s, w)));
+    }
     let c = Case {
         limit: v["limit"].as_u64().unwrap_or(1024) as u32,
         body_len: v["body_len"].as_u64().unwrap_or(0) as u32,
